@@ -408,6 +408,25 @@ class Run:
                 res, note = self.path.write("presentValue", v, self.kind, priority=None if (v == "x" and p == 0) else p)
                 if res is None:
                     return None
+        elif op == "obs":
+            # another feature starts watching the object (what ChangeOfValueServices does for the first subscription)
+            from bacpypes.service.detect import DetectionAlgorithm
+
+            class _Watch(DetectionAlgorithm):
+                pv = None
+                sf = None
+
+                def execute(self):
+                    pass
+            w = _Watch()
+            w.bind(pv=(self.obj, "presentValue"), sf=(self.obj, "statusFlags"))
+            self.watchers = getattr(self, "watchers", []) + [w]
+            pump()
+        elif op == "unobs":
+            ws = getattr(self, "watchers", [])
+            if ws:
+                ws.pop().unbind()                   # ... and stops (the last subscription ended)
+            pump()
         elif op == "tick":
             vt.now = vt.now + p
         elif op == "expire":
@@ -727,6 +746,8 @@ def random_ops(rng, kind, n, timed):
             ops.append(("bad", 0, "idx0"))
         elif r < 0.96:
             ops.append(("bad", p, "x"))         # a valid priority, not a value of the datatype
+        elif r < 0.975:
+            ops.append((rng.choice(["obs", "unobs", "unobs"]), 0, NULL))
         else:
             ops.append(("bad", rng.choice([0, 17, 18, 255, 256, 100000]), rng.choice(toks + "n").replace("n", NULL)))
     return ops
